@@ -209,7 +209,12 @@ func TestVerifC13Filters(t *testing.T) {
 				vfTimingMu.Unlock()
 			}
 		}()
-		_ = base
+		hasMirror := false
+		defer func() {
+			if hasMirror {
+				vfSettle(base) // let the mirror-pool goroutines of this case finish
+			}
+		}()
 		// the first kinds of the list are the richest; give them more weight
 		ki := vfUniform(rt, "kind", len(all)+6)
 		if ki >= len(all) {
@@ -222,6 +227,7 @@ func TestVerifC13Filters(t *testing.T) {
 		tree := vfGenFilterTree(g, kindName, "f1")
 		text := vfToYAML(tree)
 		raw := vfFromYAML(text)
+		_, hasMirror = tree["mirrorPool"]
 
 		spec, err := filters.NewSpec(env.super, "pl1", raw)
 		if err != nil {
